@@ -38,6 +38,8 @@ func init() {
 	}
 	wrap("C05", func(c *core.Ctx) { rspSessionLookup(c, "R2") })
 	wrap("C08", func(c *core.Ctx) { responseSeidAnywhere(c, "R1") })
+	wrap("C09", func(c *core.Ctx) { txSendArms(c, "R4") })
+	wrap("C11", func(c *core.Ctx) { seqThenSent(c, "R2") })
 	wrap("C10", func(c *core.Ctx) {
 		shareFrom(c, "C01", "R4", func(o *core.Obligation) bool { return has(o, "R6", "/R6/reset-caller") }, 1, "who may release a node's sessions")
 	})
@@ -336,4 +338,78 @@ func untrackedTimers(c *core.Ctx, rule string) {
 		})
 	}
 	c.Floor(rule, n, 2, "timers started in package pfcp")
+}
+
+// txSendArms: a transmit transaction that sendReqTo has entered in the table is armed: TxTransaction.send leaves before
+// it stores the retransmission timer only when the request cannot be encoded (an error that comes out of go-pfcp).
+// Any other early exit leaves a table entry without bytes and without a timer that nothing ever releases, and whose
+// sequence number still matches a stray response.
+func txSendArms(c *core.Ctx, rule string) {
+	p := c.P
+	fn := fnOf(c, rule, pkgPfcp, "TxTransaction", "send")
+	timerF := p.Field(pkgPfcp, "TxTransaction", "timer")
+	if fn == nil || timerF == nil {
+		c.Anchor(rule, "TxTransaction.send / TxTransaction.timer")
+		return
+	}
+	arms := storesToField(fn, timerF)
+	c.Check(rule, "tx-send-arms:timer-stored", fn.Pos(), len(arms) >= 1, "TxTransaction.send stores the retransmission timer")
+	n := 0
+	core.Instrs(fn, func(in ssa.Instruction) {
+		r, ok := in.(*ssa.Return)
+		if !ok || len(r.Results) == 0 {
+			return
+		}
+		for _, a := range arms {
+			if core.InstrDominates(a, r) {
+				return
+			}
+		}
+		n++
+		origins := map[string]bool{}
+		errOrigins(p, r.Results[len(r.Results)-1], origins, map[ssa.Value]bool{}, 0)
+		okO := len(origins) > 0
+		var os []string
+		for o := range origins {
+			os = append(os, o)
+			// the request is a go-pfcp message value: its MarshalTo / MarshalLen are invoked through the interface
+			if !strings.Contains(o, "go-pfcp") && !strings.HasPrefix(o, "invoke:Marshal") {
+				okO = false
+			}
+		}
+		c.Check(rule, fmt.Sprintf("tx-send-arms:early-exit#%d", n), r.Pos(), okO,
+			fmt.Sprintf("TxTransaction.send returns before arming the timer only for an encoding error of go-pfcp (error origins here: %v)", os))
+	})
+}
+
+// seqThenSent: in serveUSAReport a sequence number that was taken is sent: from the URRSeq call every path to a return
+// passes sendReqTo (an unknown URR is skipped before its number is taken).
+func seqThenSent(c *core.Ctx, rule string) {
+	p := c.P
+	fn := fnOf(c, rule, pkgPfcp, "PfcpServer", "serveUSAReport")
+	urrSeq := p.Method(pkgPfcp, "Sess", "URRSeq")
+	sendReq := p.Method(pkgPfcp, "PfcpServer", "sendReqTo")
+	if fn == nil || urrSeq == nil || sendReq == nil {
+		c.Anchor(rule, "serveUSAReport / Sess.URRSeq / PfcpServer.sendReqTo")
+		return
+	}
+	seqs := core.Calls(fn, urrSeq)
+	sends := core.Calls(fn, sendReq)
+	c.Floor(rule, len(seqs), 1, "URRSeq calls in serveUSAReport")
+	for i, sq := range seqs {
+		r := returnAvoiding(sq.Block(), func(b *ssa.BasicBlock) bool {
+			for _, sd := range sends {
+				if blockHas(b, sd.(ssa.Instruction)) {
+					return true
+				}
+			}
+			return false
+		})
+		pos := sq.Pos()
+		if r != nil {
+			pos = r.Pos()
+		}
+		c.Check(rule, fmt.Sprintf("seq-then-sent#%d", i+1), pos, r == nil,
+			"once a usage report got its UR-SEQN, every path of serveUSAReport sends the Session Report Request (a number that is taken and then not sent is a gap the peer can never close)")
+	}
 }
